@@ -48,7 +48,9 @@ namespace MEDDLY {
             return false;
         }
         inline static bool stopOnEqualArgs() {
-            return true;
+            // x%x is 0 only where x is nonzero; where x is zero we must
+            // reach the terminals and report the division by zero.
+            return false;
         }
         inline static void makeEqualResult(int L, unsigned in,
                 const forest* fa, node_handle a,
@@ -68,7 +70,9 @@ namespace MEDDLY {
                 const forest* fa, node_handle &a,
                 const forest* fb, node_handle b)
         {
-            return (0==a);
+            // 0%b is 0 only where b is nonzero, so a zero first operand
+            // cannot short-circuit the check of the divisor.
+            return false;
         }
         inline static bool simplifiesToSecondArg(int L,
                 const forest* fa, node_handle a,
